@@ -361,6 +361,10 @@ package control
 //@   ensures contributes() ==> present
 //@   ensures !contributes() && (!has(t.ips, key) || t.ips[key] == nil) ==> !present
 //@   ensures !contributes() && has(t.ips, key) && t.ips[key] != nil && len(t.ips[key].owners) == 1 && has(t.ips[key].owners, ownerKey) ==> !present
+// the result accumulates: every other owner's bitmap and the snapshot's bitmap are OR-ed into it (two call
+// sites of orDomainRoutingBitmap, both on the result), never assigned over it
+//@   at call orDomainRoutingBitmap#1 assert existingOwnerKey != ownerKey
+//@   at call orDomainRoutingBitmap#2 assert has(snapshot.ips, key)
 //@   loop 1
 //@     invariant !contributes() && len(t.ips[key].owners) == 1 && has(t.ips[key].owners, ownerKey) ==> !present
 
@@ -762,3 +766,14 @@ package control
 //@   at call AddSet#1 assert a0 == domainMatcher && a1 == domains.RuleIndex && a3 == domains.Key && a2.$base == domains.Domains.$base && len(a2) == len(domains.Domains)
 //@   at call Build#1 assert a0 == domainMatcher
 //@   ensures err == nil ==> calls("AhocorasickSlimtrie).Build") == 1
+
+// C07 (one forwarder per upstream and dial decision): the cache key of a DNS forwarder carries the upstream's
+// full identity (scheme://host:port/path - two upstreams on the same host must not share a forwarder) and
+// every field of the dial decision that changes where or how the forwarder connects.
+//@ func newDnsForwarderKey
+//@   dyncalls noeffect
+//@   nonilcheck
+//@   modifies *
+//@   at call String#1 assert a0 == upstream
+//@   ensures upstream != nil ==> calls("String") == 1
+//@   ensures dialArg != nil ==> result.l4proto == old(dialArg.l4proto) && result.ipversion == old(dialArg.ipversion) && result.bestTarget == old(dialArg.bestTarget) && result.mark == old(dialArg.mark) && result.mptcp == old(dialArg.mptcp)
